@@ -80,6 +80,12 @@ bool is_double(int k)
 
 // attribute set id: base-4 digit per key, 0 = absent, 1..3 = value
 typedef std::map<std::string, std::string> AttrMap;
+// knob hash_twins: the third value of k0, k1 and k3 is replaced by a value of ANOTHER type
+// whose std::hash equals that of an existing value of the same key (bool true ~ int64 1,
+// one-element string array ~ the string, int32 array ~ int64 array with the same elements):
+// the attribute sets differ as key-to-value maps but their hashes collide, so only the
+// equality comparison keeps their series apart.
+int g_hash_twins = 0;
 AttrMap attrs_of(int64_t id, int mask)
 {
   AttrMap m;
@@ -88,6 +94,11 @@ AttrMap attrs_of(int64_t id, int mask)
     int v = (int)((id >> (2 * k)) & 3);
     if (!v || !((mask >> k) & 1))
       continue;
+    if (g_hash_twins && v == 3 && (k == 0 || k == 1 || k == 3))
+    {
+      m[kKeys[k]] = k == 0 ? "b:1" : k == 1 ? "vs:[v1,]" : "vi32:[2,3,]";
+      continue;
+    }
     // k0: int64; k1: strings of equal length; k2: bool; k3: double and two int64 arrays that
     // share their first element; k: two string arrays that share their first element, and the
     // empty string
@@ -119,6 +130,13 @@ struct CanonOwned
   std::string operator()(uint64_t v) const { return "u64:" + std::to_string(v); }
   std::string operator()(double v) const { return "d:" + std::to_string(v); }
   std::string operator()(const std::string &v) const { return "s:" + v; }
+  std::string operator()(const std::vector<int32_t> &v) const
+  {
+    std::string o = "vi32:[";
+    for (auto e : v)
+      o += std::to_string(e) + ",";
+    return o + "]";
+  }
   std::string operator()(const std::vector<int64_t> &v) const
   {
     std::string o = "vi64:[";
@@ -435,6 +453,16 @@ struct CallAttrs final : common::KeyValueIterable
       std::swap(keys[i - 1], keys[(order_seed >> 33) % i]);
     }
     auto value = [&](int k, int v) -> common::AttributeValue {
+      if (g_hash_twins && v == 3 && (k == 0 || k == 1 || k == 3))
+      {
+        static const nostd::string_view one[1] = {"v1"};
+        static const int32_t arr32[2]          = {2, 3};
+        if (k == 0)
+          return common::AttributeValue(true);
+        if (k == 1)
+          return common::AttributeValue(nostd::span<const nostd::string_view>(one, 1));
+        return common::AttributeValue(nostd::span<const int32_t>(arr32, 2));
+      }
       if (k == 0)
         return common::AttributeValue((int64_t)v);
       if (k == 1)
@@ -650,6 +678,7 @@ World g_keep;
 void body(const Case &c)
 {
   hist().clear();
+  g_hash_twins = (int)c.knob("hash_twins", 0);
   World w;
   W           = &w;
   w.c         = &c;
@@ -802,6 +831,7 @@ bool decode(long double v, std::vector<int> &digits)
 
 void check(const Case &c, const vsim::RunResult &)
 {
+  g_hash_twins = (int)c.knob("hash_twins", 0);
   World &w   = g_keep;
   int ninstr = (int)c.knob("ninstr", 1), nread = (int)c.knob("nreaders", 1);
   int nviews = (int)c.knob("nviews", 0);
@@ -1004,6 +1034,12 @@ void check(const Case &c, const vsim::RunResult &)
                   report_for(c, "C08.wrong_series",
                              fmt("reader %d stream %s: measurement #%d with attributes {%s} landed "
                                  "in series {%s}",
+                                 r, st.name.c_str(), d, exp.c_str(), p.attrs.c_str()));
+                // (C06: what a reader receives FOR AN ATTRIBUTE SET is what was recorded for it)
+                if (!p.overflow && p.attrs != exp)
+                  report_for(c, "C06.under_other_attribute_set",
+                             fmt("reader %d stream %s: measurement #%d recorded for {%s} is "
+                                 "reported in the point of {%s}",
                                  r, st.name.c_str(), d, exp.c_str(), p.attrs.c_str()));
                 if (p.overflow && p.attrs != kOverflowKey + "=b:1;")
                   report_for(c, "C08.overflow_attributes",
@@ -1334,6 +1370,13 @@ void generate(const std::string &prop, Rng &wl, Rng &fl, Case &c)
     c.set("periodic", 1);
     stratum += "_periodic";
   }
+  // a quarter of the runs use attribute values of different types with colliding hashes
+  bool twins = wl.chance(0.25);
+  if (twins)
+  {
+    c.set("hash_twins", 1);
+    stratum += "_hashtwins";
+  }
   // recorder tasks
   int nrec = (int)wl.range(1, 2);
   std::vector<int> next_digit(ninstr, 0);
@@ -1362,6 +1405,12 @@ void generate(const std::string &prop, Rng &wl, Rng &fl, Case &c)
                                   : (int64_t)(wl.chance(0.2) ? 0 : wl.below(1024));
       if (prop == "C06" && wl.chance(0.5))
         aid &= 0x0f;  // fewer distinct sets: more merging into one series
+      if (twins && wl.chance(0.7))
+      {
+        // k0 = int64 1 / bool true, k1 = "v1" / ["v1"], k3 = int64[2,3] / int32[2,3]
+        static const int64_t kTwinIds[6] = {1, 3, 1 << 2, 3 << 2, 2 << 6, 3 << 6};
+        aid = kTwinIds[wl.below(6)] | (wl.chance(0.2) ? (1 << 4) : 0);
+      }
       p.ops.push_back({OP_ADD, i, aid, next_digit[i]++, (int64_t)(wl.next() >> 2)});
     }
     c.tasks.push_back(p);
@@ -1385,14 +1434,16 @@ void generate(const std::string &prop, Rng &wl, Rng &fl, Case &c)
   c.rc.budget2 = 120000;
 }
 
-std::string describe_op(const Case &, int, const Op &op)
+std::string describe_op(const Case &c, int, const Op &op)
 {
+  g_hash_twins = (int)c.knob("hash_twins", 0);
   switch (op.kind)
   {
     case OP_ADD:
-      return fmt("instr%lld: record measurement #%lld with attribute set %lld (key order seed "
-                 "%llx)",
-                 (long long)op.a, (long long)op.c, (long long)op.b, (unsigned long long)op.d);
+      return fmt("instr%lld: record measurement #%lld with attribute set %lld {%s} (key order "
+                 "seed %llx)",
+                 (long long)op.a, (long long)op.c, (long long)op.b,
+                 canon_attrs(attrs_of(op.b, kAllKeys)).c_str(), (unsigned long long)op.d);
     case OP_COLLECT:
       return fmt("reader %lld: Collect", (long long)op.a);
     case OP_NEW_HANDLE:
@@ -1441,7 +1492,7 @@ const EngineDesc g_engine = {
     "own task, plus one final quiescent collection), 0-2 named views (attribute allow-lists, "
     "histogram boundaries, min/max), 1-3 instruments (counter / up-down counter / histogram, "
     "long / double), 1-2 recorder tasks x 2-20 operations with attribute sets over 5 keys (one a prefix of the others) x 3 "
-    "values (int64, string, bool, double, int64 array, string array) passed in a per-call key order with overwritten duplicates; counter measurement k "
+    "values (int64, string, bool, double, int64 array, string array; in a quarter of the runs also values of another type whose hash collides with an existing value of the key) passed in a per-call key order with overwritten duplicates; counter measurement k "
     "adds +-4^k so each reported sum decodes into the measurements it contains; C08 also drives "
     "SyncMetricStorage directly with limits 2-6; a minority stratum creates a second handle for "
     "an instrument while recorders and collectors run; scheduler faults: task stalls and system clock jumps; "
